@@ -59,6 +59,8 @@ fn range_partners(b: &str) -> Vec<String> {
         }
     }
     out.retain(|d| gv::usable(d) && d != b);
+    // ... and B itself (p>=B<=B pins one value, however it is spelt)
+    out.push(b.to_string());
     out
 }
 
@@ -337,13 +339,20 @@ pub fn run(cx: &mut Cx) {
         let sweep: Vec<usize> = match cx.tier {
             crate::fw::Tier::Mini => vec![31, 32, 33],
             crate::fw::Tier::Small => sweep.into_iter().filter(|k| *k <= 70 || *k == 1024).collect(),
-            _ => sweep,
+            // ... and 2^16 components, one less and one more (a component count or
+            // index kept in a u16)
+            _ => sweep.into_iter().chain([65_535usize, 65_536, 65_537]).collect(),
         };
         for (i, k) in sweep.iter().enumerate() {
             if !cx.mine(i as u64) {
                 continue;
             }
-            let c = gv::length_cluster(*k);
+            let mut c = gv::length_cluster(*k);
+            if *k > 5_000 {
+                // strings of 130 KB: the version itself, its two neighbours in
+                // length, a letter and a revision behind it
+                c = vec![c[0].clone(), c[1].clone(), c[2].clone(), c[3].clone(), c[9].clone()];
+            }
             for b in &c {
                 for a in &c {
                     cx.check(
